@@ -175,11 +175,10 @@ def showBuildNoSpans (old : Env) : BuildResult → String
   | r => showBuild old r
 
 def handleBuild (st : DState) : List String → Option String
-  | ["bytes-undecodable"] => some (showBuildNoSpans st.env (parseBytes st.env none))
   | "bytes" :: len :: toks => do
       let n ← len.toNat?
       let (ts, lexErr) ← parseTokens toks #[]
-      some (showBuildNoSpans st.env (parseBytes st.env (some (n, ts, lexErr))))
+      some (showBuildNoSpans st.env (parseBytes st.env n ts lexErr))
   | mode :: len :: toks => do
       let m ← (match mode with | "doc" => some Mode.document | "frag" => some Mode.fragment | _ => none)
       let n ← len.toNat?
